@@ -1729,16 +1729,18 @@ BTree_rangeSearch(BTree *self, PyObject *args, PyObject *kw, char type)
             PER_UNUSE(lowbucket);
             if (bucketlen > 1)
                 lowoffset = 1;
-            else if (self->len < 2)
-                goto empty;
             else
-            {    /* move to first item in next bucket */
+            {    /* move to first item in next bucket, if there is one.
+                  * (self->len says nothing about that: a node with a single
+                  * child can sit on top of many buckets.)
+                  */
                 Bucket *next;
                 UNLESS (PER_USE(lowbucket))
                     goto err;
                 next = lowbucket->next;
                 PER_UNUSE(lowbucket);
-                assert(next != NULL);
+                if (next == NULL)
+                    goto empty;
                 lowbucket = next;
                 /* and lowoffset is still 0 */
                 assert(lowoffset == 0);
@@ -1773,12 +1775,11 @@ BTree_rangeSearch(BTree *self, PyObject *args, PyObject *kw, char type)
         {
             if (highoffset > 0)
                 --highoffset;
-            else if (self->len < 2)
+            else if (highbucket == self->firstbucket)
                 goto empty_and_decref_buckets;
             else /* move to last item of preceding bucket */
             {
                 int status;
-                assert(highbucket != self->firstbucket);
                 Py_DECREF(highbucket);
                 status = PreviousBucket(&highbucket, self->firstbucket);
                 if (status < 0)
